@@ -615,7 +615,75 @@ func main() {
 		pln("Definition go_package_vars : list (string * string * string) := [")
 		var lines []string
 		fixedCalls := map[string]bool{"reflect.TypeOf": true, "errors.New": true, "regexp.MustCompile": true, "fmt.Errorf": true}
-		for _, fn := range []string{"bexpr.go", "evaluate.go", "filter.go", "options.go", "coerce.go", "grammar/ast.go"} {
+		files := []string{"bexpr.go", "evaluate.go", "filter.go", "options.go", "coerce.go", "grammar/ast.go"}
+		// names that some function body writes through: the root identifier of an assignment target, of ++/--, of an address-of,
+		// of a range clause that assigns, or of the target of a call that can write (same list as go_mutating_calls)
+		written := map[string]bool{}
+		var rootOf func(e ast.Expr) string
+		rootOf = func(e ast.Expr) string {
+			switch x := e.(type) {
+			case *ast.Ident:
+				return x.Name
+			case *ast.SelectorExpr:
+				return rootOf(x.X)
+			case *ast.IndexExpr:
+				return rootOf(x.X)
+			case *ast.SliceExpr:
+				return rootOf(x.X)
+			case *ast.StarExpr:
+				return rootOf(x.X)
+			case *ast.ParenExpr:
+				return rootOf(x.X)
+			}
+			return ""
+		}
+		mutName := func(n string) bool {
+			if strings.HasPrefix(n, "Set") || strings.HasPrefix(n, "Write") {
+				return true
+			}
+			switch n {
+			case "Store", "Swap", "CompareAndSwap", "Add", "Delete", "LoadOrStore", "LoadAndDelete", "Put", "Get", "Lock", "Unlock", "RLock", "RUnlock", "Do", "Send", "Clear", "Grow", "Reset", "Truncate", "Range":
+				return true
+			}
+			return false
+		}
+		for _, fn := range files {
+			f := parse(filepath.Join(root, fn))
+			ast.Inspect(f, func(n ast.Node) bool {
+				switch x := n.(type) {
+				case *ast.AssignStmt:
+					if x.Tok != token.DEFINE {
+						for _, l := range x.Lhs {
+							written[rootOf(l)] = true
+						}
+					}
+				case *ast.IncDecStmt:
+					written[rootOf(x.X)] = true
+				case *ast.UnaryExpr:
+					if x.Op == token.AND {
+						written[rootOf(x.X)] = true
+					}
+				case *ast.RangeStmt:
+					if x.Tok == token.ASSIGN {
+						if x.Key != nil {
+							written[rootOf(x.Key)] = true
+						}
+						if x.Value != nil {
+							written[rootOf(x.Value)] = true
+						}
+					}
+				case *ast.CallExpr:
+					ft := anyExprText(x.Fun)
+					if (ft == "append" || ft == "copy" || ft == "delete" || ft == "reflect.Append" || ft == "reflect.AppendSlice" || ft == "reflect.Copy" || strings.HasPrefix(ft, "sort.")) && len(x.Args) > 0 {
+						written[rootOf(x.Args[0])] = true
+					} else if sel, ok := x.Fun.(*ast.SelectorExpr); ok && mutName(sel.Sel.Name) {
+						written[rootOf(sel.X)] = true
+					}
+				}
+				return true
+			})
+		}
+		for _, fn := range files {
 			f := parse(filepath.Join(root, fn))
 			for _, d := range f.Decls {
 				gd, ok := d.(*ast.GenDecl)
@@ -626,6 +694,9 @@ func main() {
 					vs := sp.(*ast.ValueSpec)
 					for i, n := range vs.Names {
 						class := "mutable"
+						if !written[n.Name] {
+							class = "unwritten" // a table: no function assigns to it, increments it, takes its address or calls a writing method on it
+						}
 						if i < len(vs.Values) {
 							switch v := vs.Values[i].(type) {
 							case *ast.BasicLit:
@@ -638,9 +709,12 @@ func main() {
 						}
 						if vs.Type != nil {
 							tt := anyExprText(vs.Type)
-							if strings.HasPrefix(tt, "sync.") || strings.HasPrefix(tt, "atomic.") || strings.HasPrefix(tt, "map[") || strings.HasPrefix(tt, "[]") || strings.HasPrefix(tt, "*") || strings.HasPrefix(tt, "chan") {
+							if strings.HasPrefix(tt, "sync.") || strings.HasPrefix(tt, "atomic.") || strings.HasPrefix(tt, "chan") {
 								class = "mutable"
 							}
+						}
+						if written[n.Name] && class == "fixed" {
+							class = "mutable"
 						}
 						lines = append(lines, fmt.Sprintf("  (%s, %s, %s)", cs(fn), cs(n.Name), cs(class)))
 					}
